@@ -149,6 +149,48 @@ Section CommitFacts.
     split; [exact Hd|]. intros Hr. apply Hp. apply roots_preserved. exact Hr.
   Qed.
 
+  (* A listed directory is really empty: whatever kind of entry a listed directory holds (regular
+     file, hidden or not, symbolic link, sub-directory), that entry is the target just deleted or a
+     directory listed before it. *)
+  Lemma last_opt_mem {A} (l : list A) x : last_opt l = Some x -> In x l.
+  Proof.
+    unfold last_opt. destruct (rev l) as [|y t] eqn:E; [discriminate|].
+    intros [= <-]. apply in_rev. rewrite E. left. reflexivity.
+  Qed.
+
+  Lemma cleanup_walk_only_empty fuel : forall fs target preserve d acc ds,
+    cleanup_walk fuel fs target preserve d acc = CwOk ds ->
+    (forall x e, In x acc -> In e (fs_children fs x) -> e = target \/ In e acc) ->
+    forall x e, In x ds -> In e (fs_children fs x) -> e = target \/ In e ds.
+  Proof.
+    induction fuel as [|fuel IH]; intros fs target preserve d acc ds H Hacc; simpl in H; [discriminate|].
+    destruct (str_in d preserve) eqn:Ep; [injection H as <-; exact Hacc|].
+    destruct (Nat.eqb (length (split_on SLASH d)) 1); [injection H as <-; exact Hacc|].
+    destruct (fs_is_dir fs d) eqn:Ed; simpl in H; [|discriminate].
+    match type of H with (if ?c then _ else _) = _ => destruct c eqn:Eall end;
+      [|injection H as <-; exact Hacc].
+    eapply IH; [exact H|]. intros x e Hx He.
+    apply in_app_or in Hx as [Hx|[<-|[]]].
+    - destruct (Hacc x e Hx He) as [Ht|Hin]; [left; exact Ht | right; apply in_or_app; left; exact Hin].
+    - rewrite forallb_forall in Eall. specialize (Eall e He).
+      apply Bool.orb_true_iff in Eall as [Et|El].
+      + left. apply str_eqb_eq. exact Et.
+      + right. apply Bool.andb_true_iff in El as [_ El].
+        destruct (last_opt acc) as [l|] eqn:Elast; [|discriminate].
+        apply str_eqb_eq in El. subst l. apply in_or_app. left. apply last_opt_mem. exact Elast.
+  Qed.
+
+  Lemma cleanup_only_empty fs target roots ds :
+    dir_cleanup_paths fs target roots = CwOk ds ->
+    forall d e, In d ds -> In e (fs_children fs d) -> e = target \/ (In e ds /\ fs_is_dir fs e = true).
+  Proof.
+    unfold dir_cleanup_paths. intros H d e Hd He.
+    destruct (cleanup_walk_only_empty _ _ _ _ _ _ _ H
+                (fun x e (Hx : In x []) _ => match Hx with end) d e Hd He) as [Ht|Hin]; [left; exact Ht|].
+    right. split; [exact Hin|].
+    exact (proj1 (cleanup_walk_dirs _ _ _ _ _ _ _ H (fun y (Hy : In y []) => match Hy with end) e Hin)).
+  Qed.
+
   (* ------------------------------------------------------------ phases: effect on the files *)
 
   Lemma remove_dirs_files fs0 : forall ds fs fs',
